@@ -74,35 +74,57 @@ def concrete(rnd, h):
     return h
 
 
+def live_deploys(rnd, hist, i):
+    latest = {}
+    for c in hist[:i + 1]:
+        if c["op"] == "deploy":
+            latest[c["name"]] = c
+        elif c["op"] == "remove" and rnd.random() < 0.7:
+            latest.pop(c["name"], None)
+    return list(latest.values()) or [c for c in hist[:i + 1] if c["op"] == "deploy"]
+
+
 def gen_matrix(rnd, hist, i, pool, k):
+    deployed = live_deploys(rnd, hist, i)
     reqs = []
     for _ in range(k):
+        c = rnd.choice(deployed) if deployed else None
         x = rnd.random()
-        if x < 0.62:
-            host = concrete(rnd, rnd.choice(pool))
+        if x < 0.7 and c:
+            host = concrete(rnd, rnd.choice(c["hosts"])) if c["hosts"] else rnd.choice(
+                [b"whatever.test", b"[::1]", b"[2001:db8::1]", b"127.0.0.1", b"::1", b"h.test:", b"h.test:80:90", b"[::1", b"h.test:http", b":80"])
         elif x < 0.8:
+            host = concrete(rnd, rnd.choice(pool))
+        elif x < 0.92:
             host = rnd.choice([b"[::1]", b"[2001:db8::1]", b"unknown.org", b"127.0.0.1", b"A.EXAMPLE.COM", b"example.com."])
         else:   # malformed Host headers
             host = rnd.choice([b"::1", b"a.example.com:", b"a.example.com:80:90", b"[::1", b"a.example.com:http", b":80"])
         if not host.endswith(b":") and b":80:" not in host and host not in (b"::1", b"[::1", b":80") and not host.endswith(b":http"):
             host += rnd.choice(PORTS)
-        uri = rnd.choice(PATHS) + rnd.choice(QUERIES)
+        if c and rnd.random() < 0.75:
+            pre = b"/" + rnd.choice(c["prefixes"] or [b"/"]).strip(b"/")
+            path = rnd.choice(PATHS) if pre == b"/" else pre + rnd.choice([b"", b"/", b"/x", b"/a%2Fb", b"/%41", b"x"])
+        else:
+            path = rnd.choice(PATHS)
+        uri = path + rnd.choice(QUERIES)
         assert not uri.startswith(ACME_PREFIX)
         reqs.append({"host": host, "uri": uri, "tls": rnd.random() < 0.4, "cookie": None,
                      "method": rnd.choice(["GET", "GET", "POST", "HEAD"])})
     return reqs
 
 
-def gen_sni(rnd, pool, k):
+def gen_sni(rnd, hist, i, pool, k):
+    deployed = live_deploys(rnd, hist, i)
     names = []
     for _ in range(k):
         x = rnd.random()
-        h = rnd.choice(pool)
-        if x < 0.45:
+        c = rnd.choice(deployed) if deployed else None
+        h = rnd.choice(c["hosts"]) if c and c["hosts"] and rnd.random() < 0.8 else rnd.choice(pool)
+        if x < 0.5:
             n = concrete(rnd, h)
-        elif x < 0.6:
+        elif x < 0.65:
             n = concrete(rnd, h).upper() if rnd.random() < 0.5 else concrete(rnd, h).swapcase()
-        elif x < 0.7:
+        elif x < 0.72:
             n = concrete(rnd, h) + b"."
         elif x < 0.78:
             n = b""
@@ -120,7 +142,7 @@ def gen_cases(seed, tier):
     for _ in range(n):
         hist, pool = gen_history(rnd, rnd.randint(4, 10))
         mats = [gen_matrix(rnd, hist, i, pool, 8) for i in range(len(hist))]
-        snis = [gen_sni(rnd, pool, 6) for _ in hist]
+        snis = [gen_sni(rnd, hist, i, pool, 6) for i in range(len(hist))]
         cases.append((hist, mats, snis, pool))
     return cases
 
